@@ -190,7 +190,9 @@ def write_evidence(mod, pid, tier, base, total, wall, nviol):
         'coverage': {
             'evaluations': int(total['runs']),
             'distinct_nontrivial': len(total['nontrivial']),
-            'rule': getattr(mod, 'RULE', ''),
+            'rule': getattr(mod, 'RULE', '') + (
+                f" Restart fault: every {mod.COLD_EVERY}th run executes in a process that has executed nothing since "
+                f"import." if getattr(mod, 'COLD_EVERY', 0) else ''),
             'samples': total['samples'][:3] or [{'note': 'no sample recorded'}],
             'events_executed': int(total['events']),
             'oracle_comparisons': int(total['oracle_checks']),
